@@ -122,7 +122,9 @@ void run_step(Hist& H, Pool<Aut>& P, Pool<BDDTopDownTreeAut>& TD, const eng::Rec
 			if (biasNext && (r[5] % 4) < 3 && lastNew < P.h.size() && P.shares(lastNew)) {
 				// operate between the newest handle and a handle it shares a table with
 				i = lastNew;
-				for (size_t k = 0; k < P.h.size(); ++k) if (k != i && P.group[k] == P.group[i]) { j = k; break; }
+				std::vector<size_t> mates;
+				for (size_t k = 0; k < P.h.size(); ++k) if (k != i && P.group[k] == P.group[i]) mates.push_back(k);
+				if (!mates.empty()) j = mates[(r[5] / 64) % mates.size()];
 				if ((r[5] / 8) % 2) std::swap(i, j);
 			}
 			const char* names[] = {"Union", "UnionDisjointStates", "Intersection", "Union-nomap"};
@@ -279,9 +281,12 @@ void harness::run_case(const eng::Raw& raw, eng::Ctx& ctx)
 	ctx.small_case(false);
 	// every history starts with the plain products of the related pair, in both operand orders, in both encodings
 	for (uint32_t enc = 0; enc < 2; ++enc) {
-		const eng::Rec pre[4] = {
-			{0, 0, h[6], enc, 0, 0, 0, 0}, {0, 1, h[7], enc, 0, 1, 0, 0},          // load T0; load T1 (numbers disjoint from T0's)
-			{6, 0, 1, enc, 0, 0, h[6] % 2, 0}, {6, 1, 0, enc, 0, 0, h[7] % 2, 0}}; // Intersection(h0,h1); Intersection(h1,h0)
+		// load T0, T1, T2 (T1, T2 with numbers disjoint from everything before); the FORK U1 = T0+T1, U2 = T0+T2 (both share
+		// T0's table) and its product; then the plain products of the related pair in both operand orders
+		const eng::Rec pre[8] = {
+			{0, 0, h[6], enc, 0, 0, 0, 0}, {0, 1, h[7], enc, 0, 1, 0, 0}, {0, 2, h[5], enc, 0, 1, 0, 0},
+			{5, 0, 1, enc, 0, 3, 0, 0}, {5, 0, 2, enc, 0, 3, 0, 0}, {6, 3, 4, enc, 0, 3, h[6] % 2, 0},
+			{6, 0, 1, enc, 5, 3, h[6] % 2, 0}, {6, 1, 0, enc, 5, 3, h[7] % 2, 0}};
 		for (const eng::Rec& r : pre) {
 			if (enc) run_step(H, TD, TD, r, autos, lastTD, biasTD);
 			else run_step(H, BU, TD, r, autos, lastBU, biasBU);
